@@ -315,3 +315,20 @@ Qed.
 
 Theorem allowed_code_zero : get_allowed_shapes_code 0 = None.
 Proof. reflexivity. Qed.
+
+(* end to end (C01 -> C02): every row the generated get_allowed_shapes returns for n >= 2 is the prefix code of a tree u with n
+   nodes, and the generated check_tree run on that row (as shape_to_functions does) succeeds, considers the whole row and returns
+   exactly the parent/left/right arrays of u *)
+Theorem allowed_rows_check_tree : forall n l s, 2 <= n ->
+  get_allowed_shapes_code n = Some (mkArr n l) -> In s l ->
+  exists u, pre u = s /\ Shapes.size u = n /\ check_tree_code s = Some (true, Some s, arr u 0 None).
+Proof.
+  intros n l s Hn Hc Hin. destruct (allowed_code_exact n ltac:(lia)) as [l' [Hc' [_ [Hspec _]]]].
+  rewrite Hc in Hc'. injection Hc' as <-.
+  apply Hspec in Hin. destruct Hin as [Hlen [u Hu]]. exists u. split; [exact Hu|].
+  assert (Hs : Shapes.size u = n).
+  { rewrite <- Hlen, <- Hu. clear. induction u as [|c IH|a IHa b IHb]; cbn [pre Shapes.size length]; try reflexivity.
+    - now rewrite IH.
+    - rewrite app_length, IHa, IHb. reflexivity. }
+  split; [exact Hs|]. rewrite <- Hu. apply code_check_tree_arrays. lia.
+Qed.
